@@ -245,8 +245,60 @@ def run_prog(c):
     return {"rows": res.to_dict()}
 
 
+def _mk_hmm(c):
+    """the PairHMM of classic_align_pairwise / _align_pairwise, built the same way (tables for the reading Sd[x, y])"""
+    import numpy
+    from cogent3.align import indel_model, pairwise
+    from cogent3.evolve.likelihood_tree import make_likelihood_tree_leaf
+
+    m = _mods()
+    s1 = m["cogent3"].make_seq(c["a"], name="a", moltype="dna")
+    s2 = m["cogent3"].make_seq(c["b"], name="b", moltype="dna")
+    S = _sdict(c["S"])
+    alpha = s1.moltype.alphabet
+    Sm = numpy.zeros([len(alpha), len(alpha)], float)
+    for i, m1 in enumerate(alpha):
+        for j, m2 in enumerate(alpha):
+            Sm[i, j] = S[m1, m2]
+    psub = numpy.exp(Sm).T
+    mprobs = numpy.ones(len(psub), float) / len(psub)
+    TM = indel_model.classic_gap_scores(c["d"], c["e"])
+    leaves = [make_likelihood_tree_leaf(seq, seq.moltype.alphabet, seq.name) for seq in (s1, s2)]
+    p1, p2 = [pairwise.AlignableSeq(leaf) for leaf in leaves]
+    EP = pairwise.Pair(p1, p2).make_simple_emission_probs(mprobs, [psub])
+    return EP.make_pair_HMM(TM)
+
+
+def _query(hmm, q):
+    kw = {}
+    if q.get("ucf") is not None:
+        kw["use_cost_function"] = q["ucf"]
+    how = q["how"]
+    if how == "forward":
+        return {"rows": None, "score": float(hmm.get_forward_score(**kw))}
+    if how == "score_and_alignment":
+        score, aln = hmm.get_viterbi_score_and_alignment(local=q["local"], **kw)
+    else:
+        vp = hmm.get_viterbi_path(local=q["local"], **kw)
+        score, aln = vp.get_score(), vp.get_alignment()
+    d = aln.to_dict()
+    return {"rows": [d["a"], d["b"]], "score": float(score)}
+
+
+def run_hist(c):
+    """a history of queries on ONE PairHMM object, and each query again on a fresh object"""
+    shared = _mk_hmm(c)
+    out = {"shared": [], "fresh": [], "n": 4}
+    for q in c["queries"]:
+        out["shared"].append(_query(shared, q))
+        out["fresh"].append(_query(_mk_hmm(c), q))
+    return out
+
+
 def run_case(c):
     k = c["kind"]
+    if k == "hist":
+        return run_hist(c)
     if k == "pair":
         return run_pair(c)
     if k == "star":
